@@ -153,23 +153,28 @@ def decide(pid: str, tier: str) -> int:
             else:
                 unlisted.append(o)
 
-        # ---- replay material for unlisted failures
+        # ---- replay material for unlisted failures (concrete playback generated in parallel, capped)
         violation_lines = []
-        for o in unlisted:
+
+        def _mk_replay(o):
             extra = {"tier": tier}
             nofail = True
             if o.engine.startswith("kani"):
                 h = inv[o.harness]
-                test_src, pb_out = kani_playback_test(scratch, o.cfg, h)
+                test_src, pb_out = kani_playback_test(scratch, o.cfg, h, cap=240)
                 if test_src:
                     extra["playback_test"] = test_src
                     extra["harness_file"] = h.file
                     nofail = False
                 else:
-                    extra["playback_note"] = "kani produced no concrete playback test for this failure"
+                    extra["playback_note"] = "kani produced no concrete playback test for this failure (within 240 s)"
                     extra["playback_output_tail"] = pb_out[-1500:]
             rp = write_replay(pid, o, extra)
-            violation_lines.append(f"VIOLATION property={pid} replay={rp}" + (" no-failing-input-found" if nofail else ""))
+            return f"VIOLATION property={pid} replay={rp}" + (" no-failing-input-found" if nofail else "")
+
+        if unlisted:
+            with cf.ThreadPoolExecutor(max_workers=4) as ex:
+                violation_lines = list(ex.map(_mk_replay, unlisted))
 
     wall = time.time() - t0
     # ---- verdict
